@@ -373,3 +373,38 @@ contract(
             "script": "c20_zero_removal.py", "args": [50, 50]},
     ensures=["implies(not old(self.finalised), self.finalised)"],
 )
+
+# ---- C20: training options never reach torch's data loading with an invalid
+# ---- batch size (empty validation split, small training sets, ...) ----------
+from pyvc.contracts import shape, Contract   # noqa: E402
+FMB = "nessai/flowmodel/base.py"
+shape("FlowModelPrep", {"initialised": "Bool", "device": "Any"},
+      cls="FlowModel", methods={
+    "initialise": Contract("<abstract>", "FlowModel.initialise",
+                           trusted=True, trusted_reason="builds the flow",
+                           modifies=["self.initialised"]),
+    "check_batch_size": Contract(
+        "<abstract>", "FlowModel.check_batch_size",
+        params={"x": "Any", "batch_size": "Int"}, trusted=True,
+        trusted_reason="searches a batch size whose last batch is not too "
+        "small; returns a value in [2, batch_size] or the input (ASSUMED: "
+        "its own loop is not under contract) -- at least 1 for a requested "
+        "size >= 1", requires=["batch_size >= 1"], returns="Int",
+        ensures=["result >= 1", "result <= batch_size"]),
+})
+contract(
+    FMB, "FlowModel.prep_data", props=["C20"], self_shape="FlowModelPrep",
+    params={"samples": "Seq(Sort(X))", "val_size": "Opt(Real)",
+            "batch_size": "Int", "weights": "Opt(Seq(Real))",
+            "use_dataloader": "Bool", "conditional": "None"},
+    # what the configuration layer accepts: a validation fraction in [0, 1),
+    # a positive batch size (or 'all': see variant), at least one sample
+    requires=["implies(val_size is not None, 0 <= val_size and "
+              "val_size < 1)", "batch_size >= 1", "len(samples) >= 1",
+              "implies(weights is not None, len(weights) == len(samples))"],
+    modifies=["self.initialised"],
+    raises={"ValueError": None},       # non-finite samples / weights
+    may_raise={"ValueError": None},
+    returns="Tuple(Any,Any,Int)",
+    ensures=["result[2] >= 1"],
+)
